@@ -150,6 +150,13 @@ def evaluate(ck, cases, reals, stats, label="C02"):
             c["_mismatch"] = True
             if disagree <= 4:
                 ck.obligation(f"correspondence {label} (structural): compile() SQL vs toSql(genJoin)", False, f"real: {x[:2200]} || model: {y[:2200]} || query={canon(c['query'])[:400]} rels={canon([(m['name'], m['rels']) for m in c['models']])[:400]}")
+            # the plans differ: the reference semantics (spec_body) does not depend on the plan, so the property is still
+            # evaluated on this case's own tables
+            spec = [tuple(x) for x in S.lean_rows(a["spec_body"])]
+            if not c01.bag_equal(c01.canon_rows(r["rows"], [False] * len(r["columns"])), spec):
+                ck.fail_input("a metric of a joined query differs from its aggregation over the distinct connected rows of its own model",
+                              {"models": c["models"], "tables": c["tables"], "query": c["query"], "real_rows": duck.show(r["rows"]), "expected": [[str(v) for v in x] for x in spec[:12]], "sql": r["sql"]},
+                              finding_key=classify(c))
             continue
         stats["structural_ok"] += 1
         if a.get("symmetric"):
@@ -181,9 +188,7 @@ def directed_search(ck, suspects, stats):
     compare the real rows with the reference semantics (distinct connected rows)"""
     rng = ck.rng
     todo = []
-    for c in suspects[:10]:
-        if classify(c):
-            continue
+    for c in [c for c in suspects if not classify(c)][:25]:
         M.GEN_META.clear(); M.GEN_META.update(c["_meta"])
         for _ in range(12 if ck.tier == "quick" else 40):
             tables = M.regen_tables(rng, c["_ms"], scale=rng.choice([1, 2]))
